@@ -14,6 +14,7 @@ from __future__ import annotations
 from typing import Dict, FrozenSet, List, Optional, Set, Tuple
 
 from ..model import AnalysisError, FuncInfo, Program, bind_call
+from ..symex import bound_receiver as _bound_receiver
 from ..symex import (T, Evaluator, Frame, call_parts, const, func_name, getitem, is_const,
                      match_scan, mk, show, strip_wrappers, sym)
 
@@ -87,7 +88,7 @@ class KeyAnalysis:
             for callee, recv_cls in cands:
                 if callee.node is None or callee.qualname.endswith(">"):
                     continue
-                bound_self = f.op in ("attr", "cls") and not callee.is_staticmethod
+                bound_self = (f.op == "cls" and not callee.is_staticmethod) or _bound_receiver(f, callee)
                 ok, _, mapping = bind_call(callee, len(pos), list(kws.keys()), bound_self)
                 if not ok:
                     continue
@@ -143,7 +144,7 @@ class _Resolver:
         for callee, recv_cls in cands:
             if callee.qualname.endswith(">"):
                 return None
-            bound_self = f.op in ("attr", "cls") and not callee.is_staticmethod
+            bound_self = (f.op == "cls" and not callee.is_staticmethod) or _bound_receiver(f, callee)
             ok, _, mapping = bind_call(callee, len(pos), list(kws.keys()), bound_self)
             if not ok:
                 return None
